@@ -539,8 +539,25 @@ func (a *errAnalysis) nilReturnOnFailure(fn *ssa.Function, ev ssa.Value, fl *err
 					}
 				}
 				// classification: errors.Is / errors.As on this error ends the obligation on the true edge
+				// (only "it does not exist" is a failure the package is allowed to answer itself —
+				// `ignore missing`, the fall-back from a relative to the plain name, the next
+				// loader; sorting failures by any other type or sentinel and then returning nil
+				// swallows them)
 				classify := func(f *types.Func, args []ssa.Value) bool {
-					return (isFunc(f, "errors", "", "Is") || isFunc(f, "errors", "", "As")) && len(args) > 0 && fl.derived[args[0]]
+					if !isFunc(f, "errors", "", "Is") || len(args) < 2 || !fl.derived[args[0]] {
+						return false
+					}
+					for _, o := range originChain(args[1]) {
+						if u, ok := o.(*ssa.UnOp); ok && u.Op == token.MUL {
+							if g, ok := u.X.(*ssa.Global); ok {
+								switch g.Name() {
+								case "ErrTemplateNotFound", "ErrNotExist":
+									return true
+								}
+							}
+						}
+					}
+					return false
 				}
 				for i, s := range blk.Succs {
 					if anyEdgeFact(blk, i, func(v ssa.Value, trueIdx int) bool {
